@@ -116,7 +116,7 @@ func init() {
 		"iterative functions (Sqrt, Cbrt, Exp, Ln, Log10, Pow): see not_applicable / per-property notes"}
 
 	checkDefs["C01"] = &CheckDef{Prop: "C01", Enable: []string{"C01."},
-		Instances:  func(tier string) []Instance { return arithInstances(tier, "zero") },
+		Instances:  func(tier string) []Instance { return append(arithInstances(tier, "zero"), p0Instances(tier)...) },
 		PathModels: true, PathModelSample: 40, Stubs: stubsLevelA, Bounds: boundsArith, Outside: outsideArith, Assumptions: assumeCommon,
 		RequireCovers: []string{"round.subnormal", "round.overflow", "round.inexact", "add.subnormal", "mul.overflow", "quo.subnormal", "quo.inexact"}}
 	checkDefs["C02"] = &CheckDef{Prop: "C02", Enable: []string{"C02."},
@@ -126,7 +126,8 @@ func init() {
 		PathModels: true, PathModelSample: 40, Stubs: stubsLevelA, Bounds: boundsArith, Outside: outsideArith, Assumptions: assumeCommon}
 	checkDefs["C07"] = &CheckDef{Prop: "C07", Enable: []string{"C07."},
 		Instances: func(tier string) []Instance {
-			return append(append(arithInstances(tier, "zero"), divIntInstances(tier, "zero")...), quantizeInstances(tier, "zero")...)
+			out := append(append(arithInstances(tier, "zero"), divIntInstances(tier, "zero")...), quantizeInstances(tier, "zero")...)
+			return append(out, compositeInstances(tier)...)
 		},
 		PathModels: true, PathModelSample: 40, Stubs: stubsLevelA, Bounds: boundsArith, Outside: outsideArith, Assumptions: assumeCommon}
 	checkDefs["C03"] = &CheckDef{Prop: "C03", Enable: []string{"C03."},
@@ -136,7 +137,9 @@ func init() {
 			// (b) ErrDecimal wrappers (iterative functions: special operands only)
 			out = append(out, twoRunInstances(tier, "VerifErrDecimal", "sym", []string{"half_even"}, []string{"sqrt", "exp", "ln", "log10"})...)
 			out = append(out, inst("VerifErrDecimal", 2, p("Pmin", 1, "regime", 0, "traps", "sym", "full", 0, "mode", "half_even", "op", "pow", "K", 2, "W", 2)))
-			// (c) the error contract on the oracle-checked harnesses at larger digit counts
+			// (c) iterative functions on concrete operands under every trap set
+			out = append(out, compositeInstances(tier)...)
+			// (d) the error contract on the oracle-checked harnesses at larger digit counts
 			if tier == "thorough" {
 				out = append(out, arithInstances("quick", "sym")...)
 			} else {
@@ -302,6 +305,118 @@ func init() {
 		Bounds:        map[string]interface{}{"quick": "eight modes run on the same symbolic operands in one path space: Round K=4/W=5, Add/Sub K=2/W=2, Mul K=3/W=3, Quo K=2 (divisor 1..9), Quantize K=3, RoundToIntegralExact K=4; two-input relations at K=2..3 under half_even and floor", "thorough": "one more digit and exponent step; relations under all modes"},
 		Outside:       []string{"larger coefficients", "results that are NaN (Quantize invalid) or hit a system limit are skipped", "an exact zero sum may differ in sign between round-floor and the other modes (GDA rule, asserted in C01/C08)"},
 		RequireCovers: []string{"modes.exact", "modes.inexact"}}
+	parseInstances := func(tier string, maxAscii, maxShaped int) []Instance {
+		var out []Instance
+		for n := 0; n <= maxAscii; n++ {
+			out = append(out, inst("VerifParse", n, p("n", n, "alphabet", "ascii", "via", "setstring", "K", 3)))
+		}
+		for _, via := range []string{"unmarshal", "scanstring", "scanbytes", "new"} {
+			for _, n := range []int{3, 5} {
+				out = append(out, inst("VerifParse", n, p("n", n, "alphabet", "ascii", "via", via, "K", 3)))
+			}
+		}
+		for n := maxAscii + 1; n <= maxShaped; n++ {
+			out = append(out, inst("VerifParse", 3*n, p("n", n, "alphabet", "shaped", "via", "setstring", "K", 3)))
+		}
+		return out
+	}
+	formatInstances := func(tier string) []Instance {
+		K := 4
+		if tier == "thorough" {
+			K = 8
+		}
+		var out []Instance
+		for _, f := range []string{"G", "g", "E", "e", "f"} {
+			out = append(out, inst("VerifFormat", 5, p("fmt", f, "via", "text", "K", K, "elo", -12, "ehi", 8)))
+		}
+		for _, via := range []string{"string", "marshal", "value", "append"} {
+			out = append(out, inst("VerifFormat", 3, p("fmt", "G", "via", via, "K", 3, "elo", -9, "ehi", 4)))
+		}
+		out = append(out, inst("VerifFormat", 3, p("fmt", "G", "via", "string", "K", 3, "elo", -100000, "ehi", -99990)))
+		out = append(out, inst("VerifFormat", 3, p("fmt", "G", "via", "string", "K", 3, "elo", 99990, "ehi", 100000)))
+		out = append(out, inst("VerifFormat", 3, p("fmt", "e", "via", "text", "K", 3, "elo", -100000, "ehi", 100000)))
+		out = append(out, inst("VerifFormat", 4, p("fmt", "G", "via", "string", "K", 1, "elo", -2002, "ehi", -1998)))
+		out = append(out, inst("VerifFormat", 4, p("fmt", "f", "via", "text", "K", 2, "elo", -40, "ehi", 40)))
+		return out
+	}
+	checkDefs["C14"] = &CheckDef{Prop: "C14", Enable: []string{"C14."},
+		Instances: func(tier string) []Instance {
+			a, sh := 7, 8
+			if tier == "thorough" {
+				a, sh = 7, 10
+			}
+			out := append(parseInstances(tier, a, sh), formatInstances(tier)...)
+			for _, v := range []string{"v", "s", "G", "g", "E", "e", "f", "F"} {
+				out = append(out, inst("VerifFormatFlags", 6, p("verb", v, "K", 2, "elo", -8, "ehi", 3, "maxwidth", 9)))
+			}
+			return out
+		},
+		PathModels: true, PathModelSample: 40, Stubs: stubsLevelA, Assumptions: append([]string{"the numeric-string grammar transcribed in /verif/harness/h_parse.go and the to-scientific-string rules in h_format.go"}, assumeCommon...),
+		Bounds: map[string]interface{}{"quick": "parser: EVERY byte string over 0..127 of length 0..7 through SetString (lengths 3 and 5 through UnmarshalText, Scan(string), Scan([]byte), NewFromString), and every string of length 8 over the bytes that occur in numeric strings; formatting: all forms and signs, coefficients up to 4 digits, exponents -12..8 plus the windows at +-100000 and the -2000 zero boundary; Format flags: +, space, -, 0, width 0..9, eight verbs",
+			"thorough": "numeric-alphabet strings up to length 10; 8-digit coefficients"},
+		Outside:       []string{"bytes >= 0x80 (strings.ToLower is modelled for ASCII only)", "NaN payloads above 2^64-1 need 23+ bytes", "longer strings / coefficients"},
+		RequireCovers: []string{"parse.accepted", "parse.rejected", "format.zero"}}
+	checkDefs["C13"] = &CheckDef{Prop: "C13", Enable: []string{"C13."},
+		Instances: func(tier string) []Instance {
+			out := formatInstances(tier)
+			for _, b := range []int{0, 2, 16} {
+				out = append(out, inst("VerifCompose", 1, p("K", 6, "elo", -100000, "ehi", 100000, "bufcap", b, "maxDigits", 30)))
+			}
+			return out
+		},
+		PathModels: true, PathModelSample: 40, Stubs: stubsLevelA, Assumptions: assumeCommon,
+		Bounds:        map[string]interface{}{"quick": "all forms and signs; coefficients up to 4 digits (Compose/Decompose: 6), exponents -12..8 plus the windows at +-100000 and the -2000 zero boundary, 'f' up to |exponent| 40", "thorough": "8 digits"},
+		Outside:       []string{"SetFloat64/Float64 (strconv shortest-float and ParseFloat are float code, outside the encoder)", "NaN payloads (String does not print them; Decompose does not carry them)", "longer coefficients"},
+		RequireCovers: []string{"format.zero", "compose.finite"}}
+	checkDefs["C04"] = &CheckDef{Prop: "C04", Enable: []string{"C04.", "P.panic"},
+		Instances: func(tier string) []Instance {
+			out := parseInstances(tier, 6, 7)
+			for _, m := range []string{"half_even"} {
+				base := p("Pmin", 0, "regime", 0, "traps", "sym", "full", 0, "mode", m, "K", 2, "W", 2)
+				for _, op := range []string{"add", "sub", "mul", "quo", "quoint", "rem", "cmp", "pow"} {
+					out = append(out, inst("VerifSpecialBinary", 2, base, "op", op))
+				}
+				for _, op := range []string{"abs", "neg", "round", "reduce", "quantize", "rti_value", "rti_exact", "ceil", "floor", "sqrt", "cbrt", "ln", "log10", "exp"} {
+					out = append(out, inst("VerifSpecialUnary", 1, base, "op", op))
+				}
+				// finite operands with zero precision allowed, and at the package exponent limits
+				for _, reg := range []int{0, 1, 2} {
+					b2 := p("Pmin", 0, "regime", reg, "traps", "zero", "mode", m)
+					out = append(out, inst("VerifRound", 3, b2, "K", 3, "W", 3))
+					out = append(out, inst("VerifAdd", 5, b2, "K", 2, "W", 2, "sub", 1))
+					out = append(out, inst("VerifMul", 3, b2, "K", 2, "W", 2))
+					out = append(out, inst("VerifDivInt", 5, b2, "K", 2, "Kd", 1, "W", 2))
+					// (at the exponent limits Quo and Quantize legitimately build powers of ten with
+					// ~100000 digits: minutes per path, outside the quick bound)
+					if reg != 1 {
+						out = append(out, inst("VerifQuo", 5, b2, "K", 2, "Kd", 1, "W", 2))
+					}
+					if reg == 0 {
+						out = append(out, inst("VerifQuantize", 3, b2, "K", 2, "W", 2, "op", "quantize"))
+					}
+				}
+			}
+			out = append(out, numDigitsInstances(tier)...)
+			for _, w := range []string{"verbs", "accessors"} {
+				out = append(out, inst("VerifMisc", 2, p("what", w, "K", 3, "elo", -30, "ehi", 30)))
+			}
+			out = append(out, inst("VerifMisc", 2, p("what", "accessors", "K", 2, "elo", 99995, "ehi", 100000)))
+			out = append(out, inst("VerifMisc", 2, p("what", "accessors", "K", 2, "elo", -100000, "ehi", -99995)))
+			out = append(out, inst("VerifMisc", 4, p("what", "condstring", "realCondString", 1, "K", 1, "elo", 0, "ehi", 0)))
+			out = append(out, inst("VerifMisc", 1, p("what", "compose", "n", 3, "K", 1, "elo", 0, "ehi", 0)))
+			for _, f := range []string{"G", "e", "f"} {
+				out = append(out, inst("VerifFormat", 3, p("fmt", f, "via", "text", "K", 3, "elo", -9, "ehi", 4)))
+			}
+			out = append(out, inst("VerifInt64", 3, p("K", 20, "W", 20)))
+			out = append(out, compositeInstances(tier)...)
+			return out
+		},
+		PathModels: false, Stubs: stubsLevelA, Assumptions: assumeCommon,
+		Bounds: map[string]interface{}{"quick": "panic obligations (nil dereference, index/slice bounds, division by zero, explicit panic, failed type assertion, math/big documented panics) on every SSA instruction of every explored path of: the parser on all ASCII strings up to 6 bytes (and numeric-alphabet strings of 7), every operation on every combination of special operands with zero precision allowed, finite operands in three exponent regimes (centre, both package limits), real NumDigits up to 150 bits both signs, Condition.String for all 2^12 condition sets, Format with every verb byte, accessors on all forms, iterative functions on concrete operands under every trap set with an execution bound of 6e7 SSA instructions (hang check)",
+			"thorough": "NumDigits to 1100 bits, more concrete operands for the iterative functions"},
+		Outside: []string{"the iterative functions on symbolic operands (their loops are executed for the listed concrete operands only)", "JSON/Gob/Scan(fmt.ScanState) wrappers of BigInt (pass-through to math/big)",
+			"BigInt methods' own panics are math/big's documented ones (C16)", "zero coefficients with exponents above 24 in Int64 (100000 loop iterations)"},
+		RequireCovers: []string{"parse.accepted", "numdigits.negative", "composite.ok", "composite.error"}}
 	checkDefs["C15"] = &CheckDef{Prop: "C15", Enable: []string{"C15."},
 		Instances: func(tier string) []Instance {
 			K := 6
@@ -382,6 +497,57 @@ func numDigitsInstances(tier string) []Instance {
 		md := edges[i+1]/3 + 5
 		out = append(out, inst("VerifNumDigitsReal", 3, p("realNumDigits", 1, "lo", lo, "hi", hi, "maxDigits", md)))
 		out = append(out, inst("VerifNumDigitsReal", 3, p("realNumDigits", 1, "lo", "-"+hi, "hi", "-"+lo, "maxDigits", md)))
+	}
+	return out
+}
+
+// p0Instances: Precision 0 (rounding disabled, as in BaseContext): Add, Sub, Mul, Abs, Neg, Round
+// and Reduce return the exact result (C01/C02 only; C07's digit/exponent bounds need Precision >= 1).
+func p0Instances(tier string) []Instance {
+	base := p("Pmin", 0, "regime", 0, "traps", "zero")
+	K, W := 2, 2
+	modes := []string{"half_even", "floor"}
+	if tier == "thorough" {
+		K, W = 3, 4
+		modes = allModes
+	}
+	var out []Instance
+	for _, m := range modes {
+		out = append(out, inst("VerifRound", 2, base, "mode", m, "K", K+2, "W", W+2))
+		out = append(out, inst("VerifAdd", 5, base, "mode", m, "K", K, "W", W, "sub", 0))
+		out = append(out, inst("VerifAdd", 5, base, "mode", m, "K", K, "W", W, "sub", 1))
+		out = append(out, inst("VerifMul", 2, base, "mode", m, "K", K+1, "W", W))
+		out = append(out, inst("VerifAbsNeg", 1, base, "mode", m, "K", K+2, "W", W+2, "op", "abs"))
+		out = append(out, inst("VerifAbsNeg", 1, base, "mode", m, "K", K+2, "W", W+2, "op", "neg"))
+		out = append(out, inst("VerifReduce", 1, base, "mode", m, "K", K+2, "W", W+2, "op", "ctx"))
+	}
+	return out
+}
+
+// compositeInstances: iterative functions on concrete operands under every trap set.
+func compositeInstances(tier string) []Instance {
+	type cs struct{ op, x, y string }
+	cases := []cs{{"exp", "0.5", ""}, {"exp", "-3.2", ""}, {"exp", "40", ""}, {"ln", "1.05", ""}, {"ln", "0.99999", ""}, {"ln", "7", ""}, {"ln", "1E+50000", ""},
+		{"log10", "3", ""}, {"log10", "1E+50000", ""}, {"log10", "0.001", ""}, {"sqrt", "2", ""}, {"sqrt", "0.0000002", ""}, {"sqrt", "16", ""},
+		{"cbrt", "5", ""}, {"cbrt", "-27", ""}, {"pow", "2", "3"}, {"pow", "1.1", "-2"}, {"pow", "2", "0.5"}, {"pow", "-3", "3"}}
+	ctxs := [][3]int{{4, -6, 6}, {4, -2, 2}}
+	if tier == "thorough" {
+		cases = append(cases, cs{"exp", "0.000001", ""}, cs{"exp", "-300", ""}, cs{"ln", "123456789", ""}, cs{"ln", "1.0000001", ""}, cs{"sqrt", "99999999", ""},
+			cs{"cbrt", "0.008", ""}, cs{"pow", "10", "-5"}, cs{"pow", "0.5", "7.5"}, cs{"log10", "1000", ""})
+		ctxs = append(ctxs, [3]int{9, -20, 20}, [3]int{1, -1, 1})
+	}
+	var out []Instance
+	for _, c := range cases {
+		for _, cx := range ctxs {
+			modes := []string{"half_even"}
+			if tier == "thorough" || c.op == "exp" || c.op == "sqrt" {
+				modes = []string{"half_even", "up"}
+			}
+			for _, m := range modes {
+				out = append(out, inst("VerifComposite", 2, p("op", c.op, "x", c.x, "y", c.y, "P", cx[0], "Emin", cx[1], "Emax", cx[2], "mode", m, "traps", "sym", "K", 3,
+					"hangcheck", 1, "maxInstr", 60000000)))
+			}
+		}
 	}
 	return out
 }
